@@ -57,6 +57,22 @@ def clip_family():
                 else:
                     nodes.append(target)
                 docs.append({"vb": [0, 0, 16, 16], "view": [0, 0, 16, 16], "root": [], "nodes": nodes})
+    # clip-rule set on the clipPath element or above it, against what the child says itself (its own
+    # declaration wins, silence inherits) - only visible on children that overlap themselves
+    for (tk, gk) in (CLIP_KIDS[2], CLIP_KIDS[3]):
+        for outer in ("nonzero", "evenodd"):
+            for own, via in ((None, 0), ("nonzero", 0), ("evenodd", 0), ("nonzero", 1), ("evenodd", 1)):
+                for where in ("clippath", "ancestor"):
+                    kid = {"d": 2, "tag": tk, "id": "", "at": [["clip-rule", own, via]] if own else [], "g": gk, "ref": ""}
+                    cp = {"d": 1, "tag": "clipPath", "id": "c1", "g": [], "ref": "",
+                          "at": [["clip-rule", outer, 0]] if where == "clippath" else []}
+                    nodes = [cp, kid]
+                    if where == "ancestor":
+                        cp["d"], kid["d"] = 2, 3
+                        nodes = [{"d": 1, "tag": "g", "id": "", "at": [["clip-rule", outer, 0]], "g": [], "ref": ""}] + nodes
+                    nodes.append({"d": 1, "tag": "rect", "id": "", "at": [["fill", "red", 0], ["clip-path", "c1", 0]],
+                                  "g": [0, 0, 16, 16, -1, -1], "ref": ""})
+                    docs.append({"vb": [0, 0, 16, 16], "view": [0, 0, 16, 16], "root": [], "nodes": nodes})
     return docs
 
 
